@@ -339,7 +339,7 @@ structure ModelSite where
   what : String
 
 def modelSites : List ModelSite := [
-  ⟨0, "Search.__init__", "rng-ctor", "RandomState(random_state)", 1, "useSeed 0"⟩,
+  ⟨0, "Search.__init__", "rng-ctor", "np.random.RandomState(", 1, "useSeed 0"⟩,
   ⟨0, "CBO.__init__", "rng-method", "self._random_state.randint(", 1, "fork 0 → 1 (surrogate seed)"⟩,
   ⟨0, "Optimizer.__init__", "crs", "check_random_state(random_state)", 1, "Optimizer.rng is the generator it is given (alias of 0, or the copy's 6)"⟩,
   ⟨0, "Optimizer.__init__", "rng-method", "self.rng.randint(", 2, "fork r → 2 (cook_estimator), fork r → 4 (initial design)"⟩,
